@@ -223,6 +223,21 @@ pub fn boundary_files(rng: &mut Rng) -> Vec<(String, Vec<u8>)> {
             out.push((format!("colours{}ct{}", n, ct), img.encode_png(rng, &EncOpts { level: 6, idat_parts: 1, ..Default::default() })));
         }
     }
+    // files oxipng accepts although one pixel's index is exactly one past the palette (it stands for opaque black): every
+    // entry of a small palette in use, the stray index early or late in the data, the palette in rising or falling
+    // brightness (so that one of the two is already in the order the palette sort would give it)
+    for rising in [false, true] {
+        for late in [false, true] {
+            for n in [3usize, 5] {
+                let mut palette: Vec<[u8; 4]> = (0..n).map(|k| { let v = (k * 255 / (n - 1)) as u8; [v, v, v, 255] }).collect();
+                if !rising { palette.reverse(); }
+                let mut idx: Vec<u16> = (0..40).map(|k| (k % n) as u16).collect();
+                idx[if late { 37 } else { 1 }] = n as u16;
+                let img = Grid { w: 8, h: 5, ct: 3, depth: 8, palette, trns: None, samples: idx }.pack(false);
+                out.push((format!("stray-index pal{} rising{} late{}", n, rising as u8, late as u8), img.encode_png(rng, &EncOpts { level: 6, idat_parts: 1, ..Default::default() })));
+            }
+        }
+    }
     let palette: Vec<[u8; 4]> = (0..256u32).map(|k| [(k * 7 % 256) as u8, (255 - k) as u8, (k * 13 % 256) as u8, if k % 5 == 0 { 128 } else { 255 }]).collect();
     let mut idx: Vec<u16> = (0..256).collect();
     for i in (1..idx.len()).rev() {
@@ -243,6 +258,7 @@ pub fn encode_apng(rng: &mut Rng, img: &HImg, extra_frames: usize, default_in_an
 /// how often `encode_apng_with` wrote two frames of different size over one stream / a true repeat (for the evidence)
 pub static SHARED_STREAM_PAIRS: AtomicUsize = AtomicUsize::new(0);
 pub static REPEATED_FRAMES: AtomicUsize = AtomicUsize::new(0);
+pub static ADLER_TWINS: AtomicUsize = AtomicUsize::new(0);
 
 pub fn encode_apng_with(rng: &mut Rng, img: &HImg, extra_frames: usize, default_in_anim: bool, fdat_parts: usize, pre_idat: &[([u8; 4], Vec<u8>)]) -> Vec<u8> {
     let mut out = SIG.to_vec();
@@ -352,6 +368,30 @@ pub fn encode_apng_with(rng: &mut Rng, img: &HImg, extra_frames: usize, default_
                 seq += 1;
                 emit_fdat(&mut out, &mut seq, &z);
                 SHARED_STREAM_PAIRS.fetch_add(1, Relaxed);
+                left -= 2;
+                continue;
+            }
+        }
+        // Two different frames of one size whose streams have the same length AND the same Adler-32 (rows `0 a 0 a` and
+        // `0 0 2a 0`, stored uncompressed): nothing short of the data itself tells one frame from another.
+        if left >= 2 && img.ct == 0 && img.depth == 8 && !img.il && img.w >= 3 && rng.chance(1, 2) {
+            let a = rng.range(1, 127) as u8;
+            let rows = rng.range(1, (img.h.min(4)) as u64) as u32;
+            let mk = |row: [u8; 3]| -> Vec<u8> {
+                let mut raw = vec![];
+                for _ in 0..rows { raw.push(0); raw.extend_from_slice(&row); }
+                miniz_oxide::deflate::compress_to_vec_zlib(&raw, 0)
+            };
+            let (z1, z2) = (mk([a, 0, a]), mk([0, 2 * a, 0]));
+            if z1.len() == z2.len() && z1[z1.len() - 4..] == z2[z2.len() - 4..] {
+                for z in [z1, z2] {
+                    let x = rng.below((img.w - 3 + 1) as u64) as u32;
+                    let y = rng.below((img.h - rows + 1) as u64) as u32;
+                    write_chunk(&mut out, b"fcTL", &fctl(seq, 3, rows, x, y, rng));
+                    seq += 1;
+                    emit_fdat(&mut out, &mut seq, &z);
+                }
+                ADLER_TWINS.fetch_add(1, Relaxed);
                 left -= 2;
                 continue;
             }
